@@ -38,7 +38,7 @@ theorem removeDangling_ext {α : Type _} (z : α) (neg : α → α) (prim : Stri
               have hr : root < nn.net.nodes.size := ho root hown'
               have hio' : root ∉ nn.net.io := by simpa using hio
               have houts := outs_all_none (by simpa using hany : (nn.net.node root).outs.any (·.isSome) = false)
-              obtain ⟨w2, r2, e2, s2, ls2⟩ := removeRoot_emb nn w root hr hio' houts net1 h1
+              obtain ⟨w2, r2, e2, s2, ls2, _⟩ := removeRoot_emb nn w root hr hio' houts net1 h1
               have hdrv : ∀ l, l < nn.net.lines.size → (nn.net.line l).driver ≠ root := by
                 intro l hl e0
                 have := (w.back l hl).2.2.1
